@@ -27,6 +27,23 @@ type docView struct {
 	jsOK   bool
 	report func(clause, diag, what string)
 	count  func(key string)
+	// All is the whole IR of the run (to follow references into other
+	// packages); foreignSeen the inlined foreign definitions already compared.
+	All         ast.Schemas
+	foreignSeen map[string]bool
+}
+
+// hasHomonym tells whether a package other than the referred one defines an object of the same name.
+func (v *docView) hasHomonym(ref *ast.RefType) bool {
+	for _, s := range v.All {
+		if s.Package == ref.ReferredPkg {
+			continue
+		}
+		if _, found := s.LocateObject(ref.ReferredType); found {
+			return true
+		}
+	}
+	return false
 }
 
 func canonOf(v any) string {
@@ -205,11 +222,39 @@ func (v *docView) cmpType(t ast.Type, frag any, steps []string, pos string) {
 			v.cmpType(t.Map.ValueType, ap, join(steps, "additionalProperties"), "map value")
 		}
 	case ast.KindRef:
-		if r, ok := m["$ref"].(string); ok {
-			if last := r[strings.LastIndex(r, "/")+1:]; last != t.Ref.ReferredType {
+		r, ok := m["$ref"].(string)
+		if !ok {
+			break
+		}
+		last := r[strings.LastIndex(r, "/")+1:]
+		if t.Ref.ReferredPkg == v.Pkg {
+			if last != t.Ref.ReferredType {
 				v.report("reference emitted under another name", pos, fmt.Sprintf("%s: IR reference to %s, emitted $ref %s", at, t.Ref.String(), r))
 			}
+			break
 		}
+		// An object of another package is copied into the document. The
+		// statement fixes the names of the package's own objects only (the
+		// copy cannot keep its name when the package has an object of that
+		// name), so the name is free; the definition the $ref points to must
+		// describe the referred object.
+		if last != t.Ref.ReferredType && !v.hasHomonym(t.Ref) {
+			// no other object of the run bears that name: nothing forces another name
+			v.report("reference emitted under another name", pos, fmt.Sprintf("%s: IR reference to %s, emitted $ref %s", at, t.Ref.String(), r))
+			break
+		}
+		obj, found := v.All.LocateObject(t.Ref.ReferredPkg, t.Ref.ReferredType)
+		def, has := v.Defs[last]
+		key := t.Ref.String() + " -> " + last
+		if !found || !has || v.foreignSeen[key] {
+			break // a dangling $ref is reported by checkRefs
+		}
+		if v.foreignSeen == nil {
+			v.foreignSeen = map[string]bool{}
+		}
+		v.foreignSeen[key] = true
+		v.count("inlined-foreign-objects-compared")
+		v.cmpType(obj.Type, def, []string{last}, "inlined object of another package")
 	case ast.KindDisjunction:
 		for _, key := range []string{"anyOf", "oneOf"} {
 			if l, ok := m[key].([]any); ok && len(l) == len(t.Disjunction.Branches) {
@@ -347,7 +392,7 @@ func (v *docView) cmpConstraints(t ast.Type, m map[string]any, at, pos string) {
 func short(v any) string {
 	b, _ := json.Marshal(v)
 	if len(b) > 200 {
-		return string(b[:200]) + "…"
+		return strings.ToValidUTF8(string(b[:200]), "") + "…"
 	}
 	return string(b)
 }
